@@ -34,7 +34,14 @@ func newGoStructObject(value reflect.Value) *goStructObject {
 	}
 }
 
-func (o goStructObject) getValue(name string) reflect.Value {
+func (o goStructObject) getValue(name string) (value reflect.Value) {
+	defer func() {
+		// FieldByIndex and FieldByName panic when the way to a promoted field
+		// leads through a nil embedded pointer: there is no such field then.
+		if recover() != nil {
+			value = reflect.Value{}
+		}
+	}()
 	if idx := fieldIndexByName(reflect.Indirect(o.value).Type(), name); len(idx) > 0 {
 		return reflect.Indirect(o.value).FieldByIndex(idx)
 	}
